@@ -88,10 +88,13 @@ theorem acct_runP (n : Nat) (ops : List Op) : ∀ (c : Enc) (t : Nat), RunInv c 
 
 /-! ### Runs without raw bits -/
 
-/-- The operations SILK uses: `ec_enc_icdf` and the header patch. -/
+/-- Operations that neither touch the raw-bit end of the buffer nor its size: what SILK uses (`ec_enc_icdf`, the
+    header patch) and the redundancy signalling of `opus_encode` (`ec_enc_bit_logp`, `ec_enc_uint(·, 256)`). -/
 def NoRawOp : Op → Prop
   | .icdf _ _ _ => True
   | .patchInitial _ _ => True
+  | .bitLogp _ _ => True
+  | .uint _ ft => ft = 256
   | _ => False
 
 theorem writeByte_rawFields (c : Enc) (v : Nat) :
@@ -123,6 +126,31 @@ theorem noRaw_op (c : Enc) (op : Op) (h : NoRawOp op) :
       · split
         · exact ⟨rfl, rfl, rfl⟩
         · split <;> exact ⟨rfl, rfl, rfl⟩
+  | bitLogp v logp =>
+    show (encBitLogp c v logp).endOffs = _ ∧ (encBitLogp c v logp).nendBits = _ ∧ (encBitLogp c v logp).storage = _
+    unfold encBitLogp
+    apply encNormalize_pres (fun x => x.endOffs = c.endOffs ∧ x.nendBits = c.nendBits ∧ x.storage = c.storage)
+    · intro x v hx; have := writeByte_rawFields x v
+      exact ⟨this.1.trans hx.1, this.2.1.trans hx.2.1, this.2.2.trans hx.2.2⟩
+    · intro x n hx; exact hx
+    · intro x r hx; exact hx
+    · intro x v r n hx; exact hx
+    · simp only; split <;> exact ⟨rfl, rfl, rfl⟩
+  | uint v ft =>
+    have hft : ft = 256 := h
+    subst hft
+    show (encUint c v 256).endOffs = _ ∧ (encUint c v 256).nendBits = _ ∧ (encUint c v 256).storage = _
+    have hil : ilog (256 - 1) = 8 := by decide
+    unfold encUint
+    simp only [hil, Nat.lt_irrefl, gt_iff_lt, if_false]
+    unfold encode
+    apply encNormalize_pres (fun x => x.endOffs = c.endOffs ∧ x.nendBits = c.nendBits ∧ x.storage = c.storage)
+    · intro x v hx; have := writeByte_rawFields x v
+      exact ⟨this.1.trans hx.1, this.2.1.trans hx.2.1, this.2.2.trans hx.2.2⟩
+    · intro x n hx; exact hx
+    · intro x r hx; exact hx
+    · intro x v r n hx; exact hx
+    · simp only; split <;> exact ⟨rfl, rfl, rfl⟩
   | _ => exact absurd h (by simp [NoRawOp])
 
 theorem noRaw_run (ops : List Op) : ∀ (c : Enc), (∀ op ∈ ops, NoRawOp op) →
